@@ -140,7 +140,7 @@ def run(ctx: Ctx):
     ctx.na_subclaims.append("'var/std agree to floating-point accuracy' is a statement about rounding error: outside contract-based deductive verification with floats modelled as reals; only the bounded numerical comparison speaks to it")
     ctx.assume("machine integers treated as mathematical integers with explicit wrap at declared cast points; 64-bit accumulators assumed not to overflow")
     ctx.trust("numpy ufunc.reduceat / bincount accumulation dtype", "numbagg kernels", "z3 / cvc5")
-    return "other", ("Mixed: sentinel (infinity) and accumulation-dtype obligations on the real kernels; fidelity of the whole call is a bounded stand-in; floating-point accuracy is not decidable in this family. " + note)
+    return "other", ("Mixed: all-NaN detection by counting and infinities-as-data obligations on the real engine='flox' kernels; fidelity of the whole call on every engine is a bounded stand-in; floating-point accuracy is not decidable in this family. " + note)
 
 
 def _case_of(payload):
